@@ -41,5 +41,33 @@ def main():
     json.dump(gold, open(os.path.join(ROOT, "corpus/kf_golden.json"), "w"))
     print("golden witnesses:", {k[0]: v for k, v in per.items() if len(k) == 1}, "total", len(gold))
 
+def append_store_finding():
+    """append witnesses of KF-C06-store-reads-destination (found later than the others) without
+    touching the recorded ones"""
+    axv.regen(); axv.write_coqproject()
+    hs = props.harnesses()
+    cases, _ = instr_gen.generate(hs["release"], 434343, 60000)
+    ids, impl, spec, hw, lines = isa_cmp.run_three(cases, "kfgold", with_hw=False)
+    blocks = props.blocks_of(lines)
+    props.mark_store_needs_read(cases, ids, impl, spec, blocks, hs, "kfgold")
+    gp = os.path.join(ROOT, "corpus/kf_golden.json")
+    gold = [g for g in json.load(open(gp)) if g["kf"] != "KF-C06-store-reads-destination"]
+    per = {}
+    for cid, c in zip(ids, cases):
+        code = c["codename"]
+        for k, d in isa_cmp.compare_impl_spec(code, impl[cid], spec[cid]):
+            if props.kf_classify(c, code, k, d, impl[cid], spec[cid], None) == "KF-C06-store-reads-destination":
+                if per.get(code, 0) < 3:
+                    per[code] = per.get(code, 0) + 1
+                    gold.append(dict(kf="KF-C06-store-reads-destination", code=code, case=blocks[cid],
+                                     impl=[l for l in impl[cid] if not l.startswith("x ")]))
+                break
+    json.dump(gold, open(gp, "w"))
+    print("store witnesses:", per, "total", len(gold))
+
+
 if __name__ == "__main__":
-    main()
+    if sys.argv[1:] == ["--append-store"]:
+        append_store_finding()
+    else:
+        main()
